@@ -72,6 +72,7 @@ type replayData struct {
 }
 
 type cfgStats struct {
+	Universe    string `json:"universe"`
 	Config      string `json:"config"`
 	States      int    `json:"states"`
 	Transitions int    `json:"transitions"`
@@ -158,8 +159,12 @@ func (r *run) bfs(cfg Config, depth int) cfgStats {
 				prev = res.Steps[len(res.Steps)-2].State
 			}
 			if prev != parent.mirror {
-				probe.Cleanup()
-				common.Broken("replay of %v reached %s, expected %s (replay is not deterministic)", jobs[i].path, prev, parent.mirror)
+				// Never seen on the unchanged tree. Servers and caches are fresh per trace, so this means
+				// some process-wide state of gqlgen (shared by the parallel workers) leaks into the
+				// outcome of a request: the result is not a function of the history on that server.
+				r.c.Report("same-history-different-state|"+evs[len(evs)-1].Kind,
+					fmt.Sprintf("[config %s] replaying %d events on a fresh server reached %s, the first run of the same prefix reached %s", cfg.Name, len(evs)-1, prev, parent.mirror),
+					replayData{Config: cfg.Name, Events: evs})
 			}
 			r.report(cfg, evs, res)
 			st.Transitions++
@@ -248,7 +253,7 @@ func replay(path string, alpha []Event) {
 		common.Broken("replay file names unknown config %q", f.Replay.Config)
 	}
 	fmt.Printf("replaying %d events on config %s (tree under test: %s)\n", len(f.Replay.Events), cfg.Name, common.RepoDir())
-	res := newWorker().runTrace(cfg, f.Replay.Events, probeUniverse(alpha), true)
+	res := newWorker().runTrace(cfg, f.Replay.Events, probeUniverse(append(append([]Event(nil), alpha...), f.Replay.Events...)), true)
 	for i, s := range res.Steps {
 		fmt.Printf("step %d: %s\n  predicted: %s %s\n  observed:  status=%d class=%s data=%s msg=%q log=%v\n  body: %s\n  state: %s\n  model: %s\n",
 			i+1, s.Event, s.Pred.Class, nick(s.Pred.Text), s.Obs.Status, s.Obs.Class, s.Obs.Data, s.Obs.Msg, s.Obs.Log, s.Obs.Body, s.State, s.Model)
@@ -269,10 +274,10 @@ func main() {
 		replay(p, alpha)
 	}
 	c := common.New("C15", "model_checking")
-	depth, seqLen := 5, 3
+	depth, seqLen, famDepth := 5, 3, 6
 	c.Budget(150 * time.Second)
 	if c.Tier == "thorough" {
-		depth, seqLen = 8, 4
+		depth, seqLen, famDepth = 8, 4, 10
 		c.Budget(20 * time.Minute)
 	}
 	r := &run{c: c, alpha: alpha, universe: probeUniverse(alpha), classes: map[string]int{}, sampled: map[string]bool{}}
@@ -308,6 +313,7 @@ func main() {
 	allDepth, allClosed := true, true
 	for _, cfg := range configs {
 		st := r.bfs(cfg, depth)
+		st.Universe = "base"
 		stats = append(stats, st)
 		states += st.States
 		transitions += st.Transitions
@@ -317,6 +323,43 @@ func main() {
 		fmt.Printf("bfs %-13s states=%-4d transitions=%-6d max_depth=%d levels=%d frontier_emptied=%v\n",
 			st.Config, st.States, st.Transitions, st.MaxDepth, st.Levels, st.Closed)
 	}
+	// near-equal text families: own universes, on the configs where a cache key is at stake
+	famStates, famTransitions, famSeq, famEvents := 0, 0, 0, 0
+	famClosed := true
+	for _, f := range families {
+		fa := familyAlphabet(f)
+		famEvents += len(fa)
+		r.alpha, r.universe = fa, probeUniverse(fa)
+		all := make([]int, len(fa))
+		for i := range all {
+			all[i] = i
+		}
+		fs, ft := 0, 0
+		for _, cfg := range configs {
+			if !cfg.Family {
+				continue
+			}
+			st := r.bfs(cfg, famDepth)
+			st.Universe = "family:" + f.ID
+			stats = append(stats, st)
+			fs += st.States
+			ft += st.Transitions
+			maxDepth = max(maxDepth, st.MaxDepth)
+			allDepth = allDepth && st.DepthDone
+			famClosed = famClosed && st.Closed
+			if cfg.QC { // and every short sequence without deduplication
+				n, done := r.allSequences(cfg, all, 2)
+				famSeq += n
+				allDepth = allDepth && done
+			}
+		}
+		famStates += fs
+		famTransitions += ft
+		fmt.Printf("family %-9s texts=%d events=%-3d states=%-5d transitions=%-6d (%s)\n", f.ID, len(f.Texts), len(fa), fs, ft, f.Why)
+	}
+	states += famStates
+	transitions += famTransitions
+	r.alpha, r.universe = alpha, probeUniverse(alpha)
 	bfsTraces := r.traces
 
 	seqTotal, seqDone := 0, true
@@ -350,7 +393,12 @@ func main() {
 	c.Cov["states"] = states
 	c.Cov["transitions"] = transitions
 	c.Cov["max_depth"] = maxDepth
-	c.Cov["traces_validated_against_impl"] = bfsTraces + seqTotal + pairs
+	c.Cov["traces_validated_against_impl"] = bfsTraces + seqTotal + pairs + famSeq
+	c.Cov["family_states"] = famStates
+	c.Cov["family_transitions"] = famTransitions
+	c.Cov["family_length2_traces"] = famSeq
+	c.Cov["family_events_total"] = famEvents
+	c.Cov["family_frontier_emptied"] = famClosed
 	c.Cov["bfs_traces"] = bfsTraces
 	c.Cov["all_sequences_traces"] = seqTotal
 	c.Cov["all_sequences_per_config"] = seqPer
@@ -374,6 +422,9 @@ func main() {
 		"bfs_depth":           depth,
 		"all_sequences_len":   fmt.Sprintf("%d on configs with all_sequences_full_length, %d on the others", seqLen, seqLen-1),
 		"texts":               texts,
+		"near_equal_families": families,
+		"family_bfs_depth":    famDepth,
+		"family_configs":      "those with family=true; plus all sequences of length<=2 of the family alphabet on the ones with a query cache",
 		"configs":             configs,
 		"state_key":           "APQ cache entries (+LRU recency order) + query-document cache keys (+order)",
 		"exhaustive_means":    "every event of the alphabet applied to every state first reached at depth < bfs_depth, and every core-alphabet sequence of length <= all_sequences_len; both on every config",
